@@ -91,7 +91,7 @@ func BuildMessage(plugin *Plugin, desc *generator.Descriptor, isRoot bool, path 
 		IsRoot:         isRoot,
 		InjectedFields: c.GetInjectedFields(),
 		OneOfNames:     c.GetOneOfNames(),
-		IsEmpty:        c.IsEmpty(),
+		IsEmpty:        c.IsEmpty() || (len(fields) == 1 && fields[0].IsPlaceholder),
 	}
 
 	message.Comment = c.GetComment()
